@@ -60,6 +60,7 @@ Fixpoint ynode_eqb (a b : ynode) {struct a} : bool :=
   | YGoStr x, YGoStr y => str_eqb x y
   | YNum x, YNum y => (dm x =? dm y) && (de x =? de y)
   | YBool x, YBool y => Bool.eqb x y
+  | YNull, YNull => true
   | YSeq x, YSeq y =>
       (fix go (x y : list ynode) : bool :=
          match x, y with
@@ -248,12 +249,13 @@ Inductive c06_defect :=
   | D6NestedOneofAmbiguous   (* generator.go:370-477: oneOf branches with optional properties only *)
   | D6FlatOneofUnset         (* generator.go:301-352: every branch requires the discriminator *)
   | D6Wire (d : c05_defect)  (* the wire form is not the documented form the schema describes (C05) *)
-  | D6NullableEnum           (* types.go:81-100 makeNullableSchema: "null" is appended to `type` but not to `enum`, so the null
-                                the server writes for an unset nullable enum field matches no enum member *)
   | D6FlattenChildOneof      (* flatten / flattened oneof variant: the parent's schema inlines the child's own properties one by one; a child
                                 with a discriminated oneof or a flatten field of its own is written in its codec form (discriminator +
                                 variant, grandchild fields inlined), properties the schema does not describe *)
   | D6MarkerKey.             (* model limit: a field or map key spelled like the float marker of the canonical JSON *)
+(* (The former class D6NullableEnum, tag nullable-enum-null-not-in-enum - makeNullableSchema appended "null" to `type` but
+   not to `enum`, so the null the server writes for an unset nullable enum field matched no member - is gone with the
+   repair of types.go: OpenApi.add_null_enum appends the !!null member.) *)
 
 Definition c06_defect_str (d : c06_defect) : str :=
   match d with
@@ -264,7 +266,6 @@ Definition c06_defect_str (d : c06_defect) : str :=
   | D6NestedOneofAmbiguous => s "nested-oneof-ambiguous"
   | D6FlatOneofUnset => s "flattened-oneof-unset-matches-no-branch"
   | D6Wire d => c05_defect_str d
-  | D6NullableEnum => s "nullable-enum-null-not-in-enum"
   | D6FlattenChildOneof => s "flatten-child-discriminated-oneof-undescribed"
   | D6MarkerKey => s "model:float-marker-key"
   end.
@@ -312,9 +313,6 @@ Definition oneof_member_set (md : message) (o : oneof) (m : mval) : bool :=
 Definition msg_issues (md : message) (m : mval) : list c06_defect :=
   (if comp_ok sc sd cs (m_name md) then [] else [D6ShortNameCollision]) ++
   (if existsb (fun f => is_marker (json_name (f_name f))) (m_fields md) then [D6MarkerKey] else []) ++
-  (if existsb (fun f => match f_nullable f, f_kind f, f_card f, mget m (f_name f) with
-                        | Some true, KEnum _, Optional, None => true
-                        | _, _, _, _ => false end) (m_fields md) then [D6NullableEnum] else []) ++
   (* a child that is INLINED into this message's object (flatten field, variant of a flattened discriminated oneof) and
      whose own JSON form is reshaped by a codec of its own (discriminated oneof with a member set, flatten field set):
      the schema of this message inlines the child's declared properties one by one *)
